@@ -74,3 +74,137 @@ pub fn fee(inp: &str, out: &str) {
     }
     w.flush().unwrap();
 }
+
+use crate::tlv::{FromBytes, ProtoBuf, SerializedTlvStream, TlvEntry, ToBytes};
+
+fn bytes_of(v: &Value) -> Vec<u8> {
+    v.as_array().map(|a| a.iter().map(|x| x.as_u64().unwrap_or(0) as u8).collect()).unwrap_or_default()
+}
+
+/// records of a decoded stream as JSON.  The stream's fields are private; its
+/// derived Debug output lists the entries exactly as decoded.
+fn recs_json(s: &SerializedTlvStream) -> Value {
+    let d = format!("{:?}", s);
+    let mut out = Vec::new();
+    let mut rest = d.as_str();
+    while let Some(p) = rest.find("TlvEntry { typ: ") {
+        rest = &rest[p + 16..];
+        let comma = rest.find(',').unwrap();
+        let typ: u64 = rest[..comma].trim().parse().expect("harness: typ in Debug output");
+        let lb = rest.find('[').unwrap();
+        let rb = rest.find(']').unwrap();
+        let val: Vec<u8> = rest[lb + 1..rb].split(',').filter(|x| !x.trim().is_empty()).map(|x| x.trim().parse().unwrap()).collect();
+        out.push(json!({"typ": typ.to_be_bytes().to_vec(), "val": val}));
+        rest = &rest[rb..];
+    }
+    json!(out)
+}
+
+/// `vfh tlv <vectors.ndjson> <out.ndjson>`
+pub fn tlv(inp: &str, out: &str) {
+    std::panic::set_hook(Box::new(|_| {}));
+    let mut w = BufWriter::new(std::fs::File::create(out).expect("out"));
+    for line in std::io::BufReader::new(std::fs::File::open(inp).expect("in")).lines() {
+        let line = line.unwrap();
+        if line.trim().is_empty() {
+            continue;
+        }
+        let mut v: Value = serde_json::from_str(&line).expect("vector");
+        v["build"] = json!(build_name());
+        let kind = v["kind"].as_str().unwrap_or("").to_string();
+        match kind.as_str() {
+            "dec" => {
+                let b = bytes_of(&v["bytes"]);
+                let prefixed = v["entry"] == "prefixed";
+                let r = catch_unwind(AssertUnwindSafe(|| {
+                    if prefixed {
+                        SerializedTlvStream::try_from(b.clone())
+                    } else {
+                        SerializedTlvStream::from_bytes(b.clone())
+                    }
+                }));
+                match r {
+                    Ok(Ok(s)) => {
+                        let rj = catch_unwind(AssertUnwindSafe(|| (recs_json(&s), SerializedTlvStream::to_bytes(s.clone()))));
+                        match rj {
+                            Ok((recs, reenc)) => {
+                                v["res"] = json!("ok");
+                                v["recs"] = recs;
+                                v["reenc"] = json!(reenc);
+                            }
+                            Err(_) => v["res"] = json!("panic"),
+                        }
+                    }
+                    Ok(Err(_)) => v["res"] = json!("err"),
+                    Err(_) => v["res"] = json!("panic"),
+                }
+            }
+            "encdec" => {
+                let entries: Vec<TlvEntry> = v["recs"].as_array().unwrap().iter().map(|r| {
+                    let t = bytes_of(&r["typ"]);
+                    let mut t8 = [0u8; 8];
+                    t8.copy_from_slice(&t);
+                    TlvEntry { typ: u64::from_be_bytes(t8), value: bytes_of(&r["val"]) }
+                }).collect();
+                let r = catch_unwind(AssertUnwindSafe(|| {
+                    let s = SerializedTlvStream::from(entries.clone());
+                    let enc = SerializedTlvStream::to_bytes(s.clone());
+                    let dec = SerializedTlvStream::from_bytes(enc.clone());
+                    (enc, dec.map(|d| (d == s, recs_json(&d))))
+                }));
+                match r {
+                    Ok((enc, Ok((same, recs)))) => {
+                        v["res"] = json!("ok");
+                        v["enc"] = json!(enc);
+                        v["same"] = json!(same);
+                        v["dec"] = recs;
+                    }
+                    Ok((enc, Err(_))) => {
+                        v["res"] = json!("err");
+                        v["enc"] = json!(enc);
+                    }
+                    Err(_) => v["res"] = json!("panic"),
+                }
+            }
+            "tu64" => {
+                let b = bytes_of(&v["bytes"]);
+                let r = catch_unwind(AssertUnwindSafe(|| {
+                    let mut bb: bytes::Bytes = b.clone().into();
+                    bb.get_tu64()
+                }));
+                match r {
+                    Ok(Ok(x)) => {
+                        v["res"] = json!("ok");
+                        v["v8"] = json!(x.to_be_bytes().to_vec());
+                    }
+                    Ok(Err(_)) => v["res"] = json!("err"),
+                    Err(_) => v["res"] = json!("panic"),
+                }
+            }
+            "getrm" => {
+                let b = bytes_of(&v["bytes"]);
+                let typ = v["typ"].as_u64().unwrap_or(16);
+                let r = catch_unwind(AssertUnwindSafe(|| {
+                    SerializedTlvStream::from_bytes(b.clone()).map(|mut s| {
+                        let got = s.get(typ);
+                        s.remove(typ);
+                        (got.map(|e| e.value), SerializedTlvStream::to_bytes(s))
+                    })
+                }));
+                match r {
+                    Ok(Ok((got, after))) => {
+                        v["res"] = json!("ok");
+                        v["found"] = json!(got.is_some());
+                        v["val"] = json!(got.unwrap_or_default());
+                        v["after"] = json!(after);
+                    }
+                    Ok(Err(_)) => v["res"] = json!("err"),
+                    Err(_) => v["res"] = json!("panic"),
+                }
+            }
+            _ => {}
+        }
+        writeln!(w, "{}", v).unwrap();
+    }
+    w.flush().unwrap();
+}
